@@ -7,14 +7,21 @@ package driver
 // (allow_unsafe_scrypt + scrypt_n 2). Every wallet is created from one fixed master
 // derivation key (MDK), so that all runs see the same addresses.
 //
-// Alphabet (18 operations, simplest first):
+// Alphabet (21 operations, simplest first):
 //   GenerateKey; ImportKey(k) for k in {foreign key F, the key generation index 1 would
 //   produce, index 2}; DeleteKey(addr, right password) for addr in {D1, D2, D3, F};
 //   DeleteKey(addr, wrong password) for addr in {D1, F}; ExportKey(D1, right / wrong),
 //   ExportKey(F, right); ExportMasterDerivationKey(right / wrong); RenameWallet(right / wrong);
-//   close + re-fetch (FetchWallet, Init(wrong) must fail, Init(right)).
+//   close + re-fetch (FetchWallet, Init(wrong) must fail, Init(right)); Init(wrong) and
+//   Init(right) again on the LIVE wallet object; re-fetch + Init(wrong) only, which leaves a
+//   locked wallet object (on it only the password-protection clauses are checked: key
+//   generation / import / right-password exports are not part of the alphabet until Init(right)).
+//   A failed Init must change nothing: the sweep that follows every operation demands that all
+//   wrong-password operations still fail and all right-password ones still work.
 // Bound: every sequence of <= 4 operations (quick) / <= 7 (thorough); states merged by the
-// wallet's real content (keys table with key_idx, decrypted max key index, wallet name).
+// wallet's real content (keys table with key_idx, decrypted max key index, wallet name) plus what
+// Init caches in the wallet object (keys in memory or not, which password the cached salted
+// hash belongs to).
 // After every operation: ListKeys (set and no duplicates), wallet name, ExportKey with the
 // right and the wrong password for every address of the universe, ExportMasterDerivationKey
 // with both passwords, CheckPassword with both passwords. In every state, RESTORE: a new
@@ -37,7 +44,7 @@ package driver
 // crashes in the middle of a wallet transaction, scrypt at production strength.
 //
 // Unexported identifiers used: extractKeyWithIndex, publicKeyToAddress, dbConnectionURL,
-// decryptBlobWithPassword, msgpackDecode, PTMaxKeyIdx, SQLiteWallet.{dbPath,masterEncryptionKey}.
+// decryptBlobWithPassword, msgpackDecode, PTMaxKeyIdx, SQLiteWallet.{dbPath,masterEncryptionKey,masterDerivationKey,walletPassword*}, fastHashWithSalt.
 //
 // Mutants (bin/mut on daemon/kmd/wallet/driver/sqlite.go, quick tier, all DETECTED):
 //   generateKeyTxLocked stores highestIndex+1 instead of the index reached after skipping
@@ -45,6 +52,9 @@ package driver
 //   DeleteKey checks the password after the DELETE statement
 //   generateKeyTxLocked's "already present" test ignores imported keys (key_idx IS NOT NULL)
 //   CheckPassword's cached-hash comparison accepts every password
+// Seeded change C46-B (Init caches the salted password hash before validating the password):
+//   missed by the first version (no second Init on a wallet object), caught since the
+//   Init(wrong)/Init(right)/locked-object operations were added.
 
 import (
 	"bytes"
@@ -149,13 +159,17 @@ const (
 	c46opRename
 	c46opRenameWrong
 	c46opReopen
+	c46opInitWrong
+	c46opInitRight
+	c46opRefetchLocked
 	c46nOps
 )
 
 var c46opNames = [c46nOps]string{"GenerateKey", "ImportKey(F)", "ImportKey(D1)", "ImportKey(D2)",
 	"DeleteKey(D1,right)", "DeleteKey(D2,right)", "DeleteKey(D3,right)", "DeleteKey(F,right)", "DeleteKey(D1,wrong)", "DeleteKey(F,wrong)",
 	"ExportKey(D1,right)", "ExportKey(D1,wrong)", "ExportKey(F,right)", "ExportMDK(right)", "ExportMDK(wrong)",
-	"Rename(right)", "Rename(wrong)", "close+refetch"}
+	"Rename(right)", "Rename(wrong)", "close+refetch",
+	"Init(wrong) on the live wallet object", "Init(right) on the live wallet object", "re-fetch + Init(wrong) only (stays locked)"}
 
 // c46sys bundles the real wallet with the reference.
 type c46sys struct {
@@ -170,6 +184,8 @@ type c46sys struct {
 	generated []uint64        // indices returned by GenerateKey, in order
 	skipped   map[uint64]bool // indices skipped because the key was present (imported)
 	nameIdx   int
+	locked    bool   // the current wallet object was fetched but never successfully Init-ed
+	mek       []byte // master encryption key (harness copy, only to read max_key_idx for the state key)
 	lastKey   string
 }
 
@@ -226,7 +242,7 @@ func (h *c46harness) newSys() *c46sys {
 	if err != nil {
 		panic(fmt.Sprintf("c46 harness: cannot create wallet: %v", err))
 	}
-	return &c46sys{h: h, dir: dir, drv: drv, w: w, present: map[crypto.Digest]bool{}, skipped: map[uint64]bool{}}
+	return &c46sys{h: h, dir: dir, drv: drv, w: w, mek: append([]byte{}, w.masterEncryptionKey...), present: map[crypto.Digest]bool{}, skipped: map[uint64]bool{}}
 }
 
 func (h *c46harness) closeSys(s *c46sys) { os.RemoveAll(s.dir) }
@@ -252,7 +268,7 @@ func (h *c46harness) cloneSys(b *c46sys) *c46sys {
 	}
 	w := *b.w
 	w.dbPath = newPath
-	c := &c46sys{h: h, dir: dir, drv: drv, w: &w, present: map[crypto.Digest]bool{}, skipped: map[uint64]bool{}, hi: b.hi, nameIdx: b.nameIdx}
+	c := &c46sys{h: h, dir: dir, drv: drv, w: &w, mek: b.mek, locked: b.locked, present: map[crypto.Digest]bool{}, skipped: map[uint64]bool{}, hi: b.hi, nameIdx: b.nameIdx}
 	for k, v := range b.present {
 		c.present[k] = v
 	}
@@ -295,7 +311,7 @@ func (s *c46sys) rawState() (string, error) {
 	if err = db.QueryRow("SELECT wallet_name, max_key_idx_encrypted FROM metadata LIMIT 1").Scan(&name, &blob); err != nil {
 		return "", err
 	}
-	plain, err := decryptBlobWithPassword(blob, PTMaxKeyIdx, s.w.masterEncryptionKey)
+	plain, err := decryptBlobWithPassword(blob, PTMaxKeyIdx, s.mek)
 	if err != nil {
 		return "", fmt.Errorf("max key index does not decrypt: %w", err)
 	}
@@ -318,8 +334,27 @@ func (h *c46harness) key(s *c46sys) string {
 	}
 	// the reference's memory of what was generated/skipped is part of the state (it decides
 	// what the restore step must reproduce)
-	s.lastKey = st + fmt.Sprintf("|gen=%v|skip=%v", s.generated, c46sortedU64(s.skipped))
+	s.lastKey = st + fmt.Sprintf("|gen=%v|skip=%v|handle:%s", s.generated, c46sortedU64(s.skipped), s.handleState())
 	return s.lastKey
+}
+
+// handleState renders what Init caches in the wallet object: whether the keys are in memory
+// and which password the cached salted hash (CheckPassword's fast path) belongs to. The salt
+// itself is random and cannot influence behaviour otherwise.
+func (s *c46sys) handleState() string {
+	w := s.w
+	cached := "none"
+	if w.walletPasswordHashed {
+		switch w.walletPasswordHash {
+		case fastHashWithSalt(c46pwRight, w.walletPasswordSalt[:]):
+			cached = "right"
+		case fastHashWithSalt(c46pwWrong, w.walletPasswordSalt[:]):
+			cached = "wrong"
+		default:
+			cached = "other"
+		}
+	}
+	return fmt.Sprintf("mek=%v,mdk=%v,cachedpw=%s", bytes.Equal(w.masterEncryptionKey, s.mek), bytes.Equal(w.masterDerivationKey, c46mdk[:]), cached)
 }
 
 func c46sortedU64(m map[uint64]bool) []uint64 {
@@ -347,6 +382,14 @@ func (h *c46harness) apply(s *c46sys, op int) (bool, error) {
 	ks := h.ks
 	if s.hi+4 > c46nDerived {
 		return false, nil // reference universe exhausted (never within the explored depths)
+	}
+	if s.locked {
+		// a wallet object that was never unlocked: the property speaks about password protection
+		// only; operations that need the decrypted keys are not part of the alphabet here
+		switch op {
+		case c46opGenerate, c46opImportF, c46opImportD1, c46opImportD2, c46opExportD1, c46opExportF, c46opExportMDK:
+			return false, nil
+		}
 	}
 	before, err := s.rawState()
 	if err != nil {
@@ -494,7 +537,36 @@ func (h *c46harness) apply(s *c46sys, op int) (bool, error) {
 			return true, ve.Violationf("C46:init-failed", "Init with the right password failed: %v", e)
 		}
 		s.w = sw
+		s.locked = false
 		err = unchanged("close+refetch")
+	case c46opInitWrong:
+		if e := s.w.Init(c46pwWrong); e == nil {
+			return true, ve.Violationf("C46:init-wrong-password-accepted", "Init with the wrong password succeeded")
+		}
+		// must change nothing: the invariant sweep that follows checks that every wrong-password
+		// operation still fails and (on an unlocked object) every right-password one still works
+		err = unchanged("Init(wrong password)")
+	case c46opInitRight:
+		if e := s.w.Init(c46pwRight); e != nil {
+			return true, ve.Violationf("C46:init-failed", "Init with the right password failed: %v", e)
+		}
+		s.locked = false
+		err = unchanged("Init(right password)")
+	case c46opRefetchLocked:
+		w, e := s.drv.FetchWallet(c46id)
+		if e != nil {
+			return true, ve.Violationf("C46:refetch-failed", "FetchWallet failed: %v", e)
+		}
+		sw, ok := w.(*SQLiteWallet)
+		if !ok {
+			return true, ve.Violationf("C46:refetch-failed", "FetchWallet returned %T", w)
+		}
+		if e = sw.Init(c46pwWrong); e == nil {
+			return true, ve.Violationf("C46:init-wrong-password-accepted", "Init with the wrong password succeeded")
+		}
+		s.w = sw
+		s.locked = true
+		err = unchanged("re-fetch + Init(wrong password)")
 	}
 	if err != nil {
 		return true, err
@@ -536,6 +608,12 @@ func (h *c46harness) invariant(s *c46sys) error {
 		return ve.Violationf("C46:wallet-name", "wallet name is %q, reference %q", md.Name, c46names[s.nameIdx])
 	}
 	for i := 0; i <= 5; i++ {
+		if _, err = s.w.ExportKey(ks.addr[i], c46pwWrong); err == nil {
+			return ve.Violationf("C46:export-wrong-password-accepted", "ExportKey(%s) with the wrong password succeeded", ks.name(ks.addr[i]))
+		}
+		if s.locked {
+			continue
+		}
 		sk, err := s.w.ExportKey(ks.addr[i], c46pwRight)
 		if s.present[ks.addr[i]] {
 			if err != nil {
@@ -551,12 +629,11 @@ func (h *c46harness) invariant(s *c46sys) error {
 		} else if err == nil {
 			return ve.Violationf("C46:export-absent-key", "ExportKey(%s) of an absent key succeeded", ks.name(ks.addr[i]))
 		}
-		if _, err = s.w.ExportKey(ks.addr[i], c46pwWrong); err == nil {
-			return ve.Violationf("C46:export-wrong-password-accepted", "ExportKey(%s) with the wrong password succeeded", ks.name(ks.addr[i]))
-		}
 	}
-	if mdk, err := s.w.ExportMasterDerivationKey(c46pwRight); err != nil || mdk != c46mdk {
-		return ve.Violationf("C46:export-mdk-failed", "ExportMasterDerivationKey(right password): err=%v, equal=%v", err, mdk == c46mdk)
+	if !s.locked {
+		if mdk, err := s.w.ExportMasterDerivationKey(c46pwRight); err != nil || mdk != c46mdk {
+			return ve.Violationf("C46:export-mdk-failed", "ExportMasterDerivationKey(right password): err=%v, equal=%v", err, mdk == c46mdk)
+		}
 	}
 	if _, err := s.w.ExportMasterDerivationKey(c46pwWrong); err == nil {
 		return ve.Violationf("C46:export-mdk-wrong-password-accepted", "ExportMasterDerivationKey with the wrong password succeeded")
@@ -589,6 +666,9 @@ func (h *c46harness) refSet(s *c46sys) string {
 // final: RESTORE. A new wallet from the exported MDK regenerates the derived sequence.
 func (h *c46harness) final(s *c46sys) error {
 	ks := h.ks
+	if s.locked {
+		return nil // the MDK can only be exported from an unlocked wallet object
+	}
 	if s.lastKey != "" {
 		if _, done := h.restored.LoadOrStore(s.lastKey, struct{}{}); done {
 			return nil
